@@ -1,13 +1,16 @@
 """C27 translator, part 2: abstract interpreter over the pruned clang AST (c27_extract.py) -> guard table.
 
 For every emission site (`reportError(...)` member call, `ErrorMessage` construction) of the check classes it computes, for each
-possible (severity, certainty) outcome, a *positive* boolean formula (DNF) over
-    option atoms      enabled(<severity>) | enabled(<symbolic severity expression k>) | inconclusive
+possible (severity, certainty) outcome, a boolean formula (DNF) over
+    option literals   enabled(<severity>) | enabled(<symbolic severity expression k>) | inconclusive, each with its REAL polarity:
+                      `if (!isEnabled(x)) return;` leaves enabled(x), `if (isEnabled(x)) return;` and the else branch of
+                      `if (isEnabled(x))` leave NOT enabled(x).  Nothing about options is dropped; only equivalences are applied
+                      ((A and l) or (B and not l) = A or (B and not l) for B subset of A).  Whether a row is monotone in the
+                      options (no live disabled-option test) is DECIDED in Lean over the regenerated table (Row.posOk).
     environment lits  lit k +/-  (an opaque boolean of the analysed run: a local bool variable at one version, a pure accessor of a
                       ValueFlow::Value such as `v.condition`, a Settings flag such as `checkLibrary`, `isPremiumEnabled("id")`, a
                       function parameter of a root function, an unrecognised condition)
-that is IMPLIED by "this site is executed and reports with that severity/certainty".  Negative facts about options are dropped
-(weakening), so every formula is monotone in the options by construction of the language.
+that is IMPLIED by "this site is executed and reports with that severity/certainty".
 
 Dominance rules (all sound weakenings, see docs/C27.md):
   * `if (C) S1 else S2`: S1 runs under T(C), S2 under F(C); if S1 always leaves (return/continue/break/throw/goto as last
